@@ -189,6 +189,8 @@ namespace probe {
    struct Session {
       std::ostream& out;
       ipr::impl::Lexicon* lex = nullptr;
+      bool in_place = false;
+      alignas(ipr::impl::Lexicon) unsigned char lexicon_storage[sizeof(ipr::impl::Lexicon)];
       std::map<std::string, Val> vals;
       std::map<const void*, long> names;
       std::vector<Client> clients;
@@ -406,6 +408,7 @@ namespace probe {
             impl::Translation_unit* u = nullptr;
             { Track t; u = new impl::Translation_unit(l); }
             clients.push_back({ u, nullptr });
+            touch_unit(*u);
             Val v = of_region(identity(u), u->global_region()); v.unit = u; return v;
          }
          if (op == "module") {
@@ -413,12 +416,14 @@ namespace probe {
             impl::Module* m = nullptr;
             { Track t; m = new impl::Module(l); }
             clients.push_back({ nullptr, m });
+            touch_unit(m->iface);
             Val v = of_region(identity(m), m->iface.global_region()); v.unit = &m->iface; v.mod = m; return v;
          }
          if (op == "munit") {
             arity(1); auto& m = need(operand(a[0]).mod);
             impl::Module_unit* u = nullptr;
             { Track t; u = m.make_unit(); }
+            touch_unit(*u);
             Val v = of_region(identity(u), u->global_region()); v.unit = u; return v;
          }
          if (op == "ns") { arity(1); auto& r = region(a[0]); impl::Namespace* n; { Track t; n = l.make_namespace(r); } return of_udt(n); }
@@ -452,6 +457,21 @@ namespace probe {
          }
          throw Malformed{};
       }
+
+      // live use of what a unit owns: the global namespace, its name (an Identifier of THIS Lexicon), its type and region are read
+      template<class U>
+      void touch_unit(const U& u)
+      {
+         const ipr::Namespace& g = u.global_namespace();
+         const ipr::Name& n = g.name();
+         std::size_t sink = static_cast<std::size_t>(n.category) + static_cast<std::size_t>(g.type().category);
+         if (auto id = ipr::util::view<ipr::Identifier>(n)) {
+            sink += id->string().size();
+            if (id != &lex->get_identifier(u8"")) out << "@unit_name_is_own_empty_identifier=0\n";
+         }
+         touched += sink;
+      }
+      std::size_t touched = 0;
 
       static bool opaque(const std::string& op)
       {
@@ -540,7 +560,10 @@ namespace probe {
          vals.clear(); names.clear(); scopes.clear(); returned.clear();
          base_blocks = live_blocks;
          base_bytes = live_bytes;
-         { Track t; lex = new ipr::impl::Lexicon; }
+         // Four Lexicons out of five live at ONE address (constructed in place in the same storage, like an automatic object in a
+         // loop or a re-emplaced std::optional); every fifth lives on the heap.  Nothing may be remembered by address across them.
+         in_place = lexicons % 5 != 4;
+         { Track t; lex = in_place ? new (lexicon_storage) ipr::impl::Lexicon : new ipr::impl::Lexicon; }
          ++lexicons;
          out << "new\n";
       }
@@ -556,7 +579,7 @@ namespace probe {
                delete c.unit;
                delete c.mod;
             }
-            delete lex;
+            if (in_place) lex->~Lexicon(); else delete lex;
          }
          lex = nullptr;
          vals.clear(); scopes.clear();
